@@ -13,6 +13,7 @@ from common import Check, harness_json, validate_chunks, read_record, workdir, l
 
 SPLIT_ALPHA = [97, 59, 32, 10, 39, 34, 96, 45, 47, 42, 35, 92]      # a ; space \n ' " ` - / * # \
 SPLIT_SUB = [59, 47, 42, 45, 10, 114, 39, 92, 97]                    # ; / * - \n r ' \ a   (raw strings, comments)
+SPLIT_WS = [59, 97, 9, 11, 12, 13, 32, 10]                            # ; a and every ASCII white-space byte (TAB VT FF CR SP LF)
 FILE_ALPHA = [97, 10, 13, 195, 169]                                 # a \n \r and the two bytes of 'é'
 
 ERR_INPUTS = [
@@ -41,7 +42,7 @@ def stmt_lists(path, seed):
     rng = random.Random(seed)
     stmts = ["SELECT 1", "SELECT ';'", 'SELECT ";--"', "SELECT `a;b`", "SELECT '''x;\ny'''", "SELECT r'\\';'", "SELECT b\"/*\"", "DELETE t WHERE a = '--'",
              "SELECT 1 -- c;\n", "SELECT /* ; */ 2", "SELECT 1 # ;\n", "", " ", "CREATE TABLE t (a INT64) PRIMARY KEY (a)", "SELECT \"\\\";\"", "SELECT '\\';'"]
-    trivia = ["", " ", "\n", "/*c*/", " /* ; */ ", "-- x\n", "# y;\n", "//z\n", " \t\n"]
+    trivia = ["", " ", "\n", "/*c*/", " /* ; */ ", "-- x\n", "# y;\n", "//z\n", " \t\n", "\r\n\f\r\n", "\v"]
     lines = []
     for a in stmts:
         for t1 in trivia:
@@ -71,6 +72,9 @@ def record(prop, tier, wd, pre):
         p2 = os.path.join(wd, pre + "b")
         n = harness_json(["splitrec", "-alpha", alpha(SPLIT_SUB), "-max", cfg["sub"], "-chunks", cfg["chunks"], "-out", p2])["records"]
         sets.append(("rawcomment9<=%d" % cfg["sub"], p2, cfg["chunks"], n))
+        p4 = os.path.join(wd, pre + "d")
+        n = harness_json(["splitrec", "-alpha", alpha(SPLIT_WS), "-max", 5 if tier == "quick" else 6, "-chunks", cfg["chunks"], "-out", p4])["records"]
+        sets.append(("whitespace8<=%d" % (5 if tier == "quick" else 6), p4, cfg["chunks"], n))
         lists = os.path.join(wd, "lists.in")
         stmt_lists(lists, common.seed())
         p3 = os.path.join(wd, pre + "c")
